@@ -360,6 +360,10 @@ func emit(r *hx.Run, line string) {
 		}
 	} else {
 		r.Count("ans:" + strings.Fields(ans)[0])
+		if f[0] == "safe" {
+			// which answer of which function at which type the generated requests reach
+			r.Count("cell:" + f[1] + ":" + f[2] + ":" + strings.Fields(ans)[0])
+		}
 	}
 	if strings.HasPrefix(ans, "ok") || ans == "overflow" {
 		r.Nontrivial(line)
